@@ -104,6 +104,17 @@ Definition is_nil {A} (l : list A) : bool := match l with [] => true | _ => fals
 Definition clean_lines (s : str) : list str :=
   filter (fun l => negb (is_nil l)) (map trim (split_on 10 s)).
 
+(* str::lines: pieces are terminated by LF; a CR directly before that LF is dropped; a last
+   piece without LF is returned unchanged; no trailing empty piece *)
+Definition strip_cr (l : str) : str :=
+  match rev l with 13 :: r => rev r | _ => l end.
+Fixpoint std_lines_aux (s : str) (cur : str) : list str :=
+  match s with
+  | [] => match cur with [] => [] | _ => [rev cur] end
+  | c :: r => if c =? 10 then strip_cr (rev cur) :: std_lines_aux r [] else std_lines_aux r (c :: cur)
+  end.
+Definition std_lines (s : str) : list str := std_lines_aux s [].
+
 Fixpoint join_with (sep : str) (ls : list str) : str :=
   match ls with
   | [] => []
